@@ -17,7 +17,7 @@ def grid_ints(w, n, rnd):
     return out
 
 
-POS_TEMPLATE = '''
+POS_TEMPLATE = '''%(hdr)s
 empty !d(bool c) { !truth_is_defeat(c); }
 empty @is_you(%(ptypes)s) {
   %(pre)s
@@ -37,7 +37,7 @@ empty @is_you(%(ptypes)s) {
 }
 '''
 
-ARITH_TEMPLATE = '''
+ARITH_TEMPLATE = '''%(hdr)s
 bool ident(bool t) { return t; }
 empty @is_you(%(ptypes)s) {
   %(pre)s
@@ -85,21 +85,40 @@ def ops_family(seed, tier, ws):
     progs.append(('isint_bool', 'int a, int b', 'bool p = a > b;', '(p is int)', 'ii', ARITH_TEMPLATE))
     progs.append(('isbyte_bool', 'int a, int b', 'bool p = a > b;', '((p is byte) is int)', 'ii', ARITH_TEMPLATE))
     progs.append(('byte_widen', 'byte a, byte b', '', '(a - b)', 'bb', ARITH_TEMPLATE))
+    # the same operators with operands that are not parameters: mutable globals, array elements, call results, lengths
+    hdrs = {}
+    for sk, hdr, pre, A, B in (('glob', 'int ga = 0; int gb = 0;', 'ga = a; gb = b;', 'ga', 'gb'),
+                               ('elem', '', 'int[] ar = [a, b];', 'ar[0]', 'ar[1]'),
+                               ('call', 'int id(int v) { return v; }', '', 'id(a)', 'id(b)'),
+                               ('len', 'string[] GS = ["ab", "hello"]; string ps(int i) { if (i == 0) { return "zero"; } return "three"; }', 'int k = 1;',
+                                '(a + 1)', 'GS[k].length')):
+        for op in ['+', '-', '*', '/', '%']:
+            progs.append(('src_%s_ar_%s' % (sk, op), 'int a, int b', pre, '(%s %s %s)' % (A, op, B), 'ii', ARITH_TEMPLATE))
+        for nm, e in (('neg', '(-%s)' % A), ('pos', '(+%s)' % A), ('pos_rhs', '(7 - +%s)' % B), ('isbyte', '((%s is byte) is int)' % A),
+                      ('lenrhs', '(%s * 2 - ps(b %% 2).length)' % A if sk == 'len' else '(%s - -%s)' % (A, B))):
+            progs.append(('src_%s_%s' % (sk, nm), 'int a, int b', pre, e, 'ii', ARITH_TEMPLATE))
+        for nm, e in (('lt', '(%s < %s)' % (A, B)), ('eq', '(%s == %s)' % (A, B)), ('not', '(not %s)' % A), ('isbool', '(%s is bool)' % B),
+                      ('and', '(%s and %s)' % (A, B)), ('pos_cmp', '(+%s < 0)' % A)):
+            progs.append(('src_%s_%s' % (sk, nm), 'int a, int b', pre, e, 'ii', POS_TEMPLATE))
+        for q in progs:
+            if q[0].startswith('src_%s_' % sk):
+                hdrs[q[0]] = hdr
     for w in ws:
         n = {'quick': 7, 'thorough': 16}[tier] if w == 2 else {'quick': 4, 'thorough': 9}[tier]
         ints = grid_ints(w, n, rnd)
         bytes_ = [0, 1, 127, 128, 255, 2, 10, 200, 48, 254][:max(3, n // 2)]
         for name, ptypes, pre, expr, kinds, tmpl in progs:
             key = 'B' if tmpl is POS_TEMPLATE else 'E'
-            src = tmpl % {'ptypes': ptypes, 'pre': pre, key: expr}
+            src = tmpl % {'ptypes': ptypes, 'pre': pre, key: expr, 'hdr': hdrs.get(name, '')}
             da = ints if kinds[0] == 'i' else bytes_
             db = ints if kinds[1] == 'i' else bytes_
             pairs = [(x, y) for x in da for y in db]
-            if tier == 'quick' and len(pairs) > 24:
-                head = pairs[:6]
-                rest = pairs[6:]
+            cap = 8 if name.startswith('src_') else 24
+            if tier == 'quick' and len(pairs) > cap:
+                head = pairs[:cap // 4]
+                rest = pairs[cap // 4:]
                 rnd.shuffle(rest)
-                pairs = head + rest[:18]
+                pairs = head + rest[:cap - cap // 4]
             for x, y in pairs:
                 items.append(runner.Item(('ops', name, x, y, w), src, [str(x), str(y)], w=w, s=120,
                                          meta={'family': 'op:' + name, 'classifier': {'op': name}}))
@@ -138,6 +157,17 @@ def write_family(seed, tier, ws):
             chunk = vals[i:i + per]
             items.append(runner.Item(('wint', w, i), WRITE_INT, [str(v) for v in chunk], w=w, s=60,
                                      meta={'family': 'write_int', 'classifier': {'fn': 'write_int'}}))
+    # constants (literals, const variables, folded expressions) at the decimal and word boundaries: the compiler may
+    # render them itself, and must print what the run-time routine prints
+    for w in ws:
+        m = (1 << (8 * w - 1)) - 1
+        cs = [0, 1, -1, 9, 10, -9, -10, 99, 100, -100, m, m - 1, -m, 255, 256, -128, -129] + [10 ** k + d for k in range(2, int(2.4 * w)) for d in (-1, 0) if 10 ** k <= m]
+        for i in range(0, len(cs), 8):
+            src = 'empty @is_you(int r) { %s write(r); }' % ' '.join('writeln(%d);' % v for v in cs[i:i + 8])
+            items.append(runner.Item(('wconst', w, i), src, ['7'], w=w, s=60, meta={'family': 'write_int_constants', 'classifier': {'fn': 'write_int'}}))
+        stmts = ''
+        src = 'const int K = %d; const int L = -%d - 1; const int Z = 0;\nempty @is_you(int r) { %s writeln(K); write(K); write(\' \'); writeln(L); write(L + 1); write(\' \'); write(K - 1); write(\' \'); write(-K); write(\' \'); writeln(Z); write(%d - 1 + 1); write(\' \'); writeln(r); }' % (m, m, stmts, m)
+        items.append(runner.Item(('wconst', w), src, [str(m)], w=w, s=60, meta={'family': 'write_int_constants', 'classifier': {'fn': 'write_int'}}))
     # write(int) with the stack as tight as it gets: the digit buffer must not touch live data
     tight = 'empty @is_you(int a) { byte[] h = [\'A\', \'B\', \'C\', \'D\']; int q = 3; write(a); write(h); write(q); }'
     for a in [0, 7, -7, 12345, -12345, 32767, -32768]:
@@ -201,6 +231,11 @@ def const_family(seed, tier):
         src = 'empty @is_you() { string s = "%s"; %s %s writeln(); byte[] q = [%s]; write(q); }' % (
             lit, dump('s'), chars, ', '.join("'%s'" % esc(b) for b in bs))
         items.append(runner.Item(('c13', 'bytes', lo), src, [], s=80, meta={'family': 'const_bytes'}))
+        # the same bytes as global byte arrays written with character literals (data directives of the const / state section)
+        cl = ', '.join("'%s'" % esc(b) for b in bs)
+        src = 'const byte[] GC = [%s]; byte[] GM = [%s]; const byte[] G1 = [\'%s\']; const byte[] G2 = [\'"\', \'%s\', \'"\']; empty @is_you() { write(GC); write(GM); %s %s write(G1); write(G2); }' % (
+            cl, cl, esc(bs[0]), esc(bs[5]), dump('GC'), dump('GM'))
+        items.append(runner.Item(('c13', 'global_chars', lo), src, [], s=80, meta={'family': 'const_global_char_arrays'}))
     # raw (unescaped in the source) printable characters
     raw = ''.join(chr(c) for c in range(32, 127) if chr(c) not in '"\\')
     items.append(runner.Item(('c13', 'raw'), 'empty @is_you() { string s = "%s"; %s }' % (raw, dump('s')), [], s=80,
@@ -413,6 +448,16 @@ empty @is_you(int v) { try { !chk(v); write('n'); } stop { write('h'); } write(p
      None, [['0'], ['7'], ['9']]),
 ]
 
+# constant indices into constant strings / arrays, in and out of range, negative included: folding a lookup must keep
+# the run-time fault
+for _k in (-1, -5, -6, 5, 0, 4, 6):
+    FOLD_PROGRAMS.append(('const_index_lit_%d' % _k, '''empty @is_you(int a) { write('s'); write("hello"[%d]); write('e'); }''' % _k,
+                          '''empty @is_you(int a, int k) { string h = "hello"; write('s'); write(h[k]); write('e'); }''', [['0', str(_k)]]))
+    FOLD_PROGRAMS.append(('const_index_const_%d' % _k, '''const string CS = "world"; const int[] CI = [1, 2, 3, 4, 5]; const int K = %d;
+empty @is_you(int a) { write('s'); if (a == 0) { write(CS[K]); } else { write(CI[K]); } write(("abcde" is byte[])[K]); write('e'); }''' % _k,
+                          '''empty @is_you(int a, int k) { string CS = "world"; int[] CI = [1, 2, 3, 4, 5]; byte[] q = ['a', 'b', 'c', 'd', 'e'];
+write('s'); if (a == 0) { write(CS[k]); } else { write(CI[k]); } write(q[k]); write('e'); }''', [['0', str(_k)], ['1', str(_k)]]))
+
 
 def fold_family(ws):
     items = []
@@ -505,6 +550,28 @@ empty @is_you(int k, int d) {
   write('b');
 }'''
     add('nonlocal_preempt_stop', np2, [[0, 0], [0, 1], [1, 0], [1, 1]])
+    # value-returning preemptive defeat functions: every way of leaving one must check for a non-local preempt
+    for ty, v1, v2 in (('int', '5', '1'), ('byte', "'x'", "'y'"), ('bool', 'true', 'false'), ('string', '"pp"', '"qq"')):
+        for nm, body in (('ret_in_preempt', "preempt { write('p'); return %s; } write('q'); !truth_is_defeat(k == 1); return %s;" % (v1, v2)),
+                         ('ret_after_preempt', "preempt { write('p'); } write('q'); !truth_is_defeat(k == 1); return %s;" % v2),
+                         ('ret_nested', "for (int i = 0; i < 2; i += 1) { preempt { write('p'); if (i == 0) { return %s; } } } write('q'); if (k == 2) { return %s; } !truth_is_defeat(k == 1); return %s;" % (v1, v1, v2))):
+            add('np_value_%s_%s' % (nm, ty), '''%s !pre(int k) { %s }
+empty @is_you(int k, int d) {
+  write('a');
+  try { write(!pre(k)); write('r'); !truth_is_defeat(d == 1); write('n'); } undo { write('u'); }
+  try { %s t = !pre(k); write('R'); !truth_is_defeat(d == 2); write('N'); } stop { write('s'); }
+  write('b');
+}''' % (ty, body, ty), [[0, 0], [0, 1], [0, 2], [1, 0], [1, 1], [2, 1], [2, 2]])
+    # literal indices on things whose length is only known at run time (and may be zero)
+    for K in (0, 1, 2):
+        src = '''empty @is_you(int n, const int[] v) { int a[n]; write('a'); if (n == 9) { write(v[%d]); } else { a[%d] = 5; a[%d] += 1; write(a[%d]); } write('b'); }''' % (K, K, K, K)
+        for args in ([0], [1], [2], [3], [9], [9, 4], [9, 4, 5], [9, 4, 5, 6]):
+            items.append(runner.Item(('flt', 'idx_literal_%d' % K, tuple(args)), src, [str(x) for x in args], s=120,
+                                     meta={'family': 'fault:idx_literal', 'classifier': {'site': 'idx_literal'}}))
+        src = '''empty @is_you(string s, const string[] v) { write('a'); write(s[%d]); write(v[%d]); write(v[%d][%d]); write('b'); }''' % (K, K, K, K)
+        for args in ([''], ['x'], ['xyz'], ['xyz', ''], ['xyz', 'p', 'q', 'r'], ['xyz', 'pqr', 'q', 'r'], ['xyz', 'pqr', 'qqq', 'rrr']):
+            items.append(runner.Item(('flt', 'idx_literal_str_%d' % K, tuple(args)), src, args, s=120,
+                                     meta={'family': 'fault:idx_literal', 'classifier': {'site': 'idx_literal_str'}}))
     # every syntactic home of a preempt block makes the function preemptive (README: "anywhere in it, even if unreachable")
     homes = {'for': 'for (int i = 0; i < k; i += 1) { preempt { write(\'p\'); } }', 'while': 'int i = 0; while (i < k) { i += 1; preempt { write(\'p\'); } }',
              'else': 'if (k > 5) { write(\'t\'); } else { preempt { write(\'p\'); } }', 'block': '{ { preempt { write(\'p\'); } } }',
